@@ -21,7 +21,7 @@ func init() {
 		Explanation: "Decides that Ready/Synced cannot overstate and cannot be forged, as shapes of the code: (R5.1) every SetConditions / SetClaimConditionTypes whose argument comes from function-supplied or stored conditions is reached only over the IsSystemConditionType==false edge; " +
 			"(R5.2) after a create-capable apply was rejected as invalid and composition continues, the resource is recorded without Synced=true (pipeline) / its slot is nil-ed and the nil slot yields Synced=false, Ready=false (P&T); Synced=true records need the apply's success edge; " +
 			"(R5.3) the reconciler collects every unsynced and every unready composed resource with no early exit and passes both to updateXRConditions; (R5.4) on every loop-free path of updateXRConditions (phi and slot definitions resolved along the path, branch on readyCond.Status pruned by the constructors' constant Status) a Ready condition with Status True reaches SetConditions only if no resource is unready and the composite was not marked unready, or it was explicitly marked ready, and a Synced condition with Status True only if no resource is unsynced; " +
-			"(R5.5) after a Compose error the status write is preceded by SetConditions(ReconcileError), and unseen custom conditions are set Unknown; (R5.6) a claim is marked Available only after ok(Sync) on the edge where the synced XR's Ready condition is true. (R5.8) the default readiness of a composed resource is the conjunction of its readiness checks: after a check reported not-ready every return reports not-ready.",
+			"(R5.5) after a Compose error the status write is preceded by SetConditions(ReconcileError), and unseen custom conditions are set Unknown; (R5.6) a claim is marked Available only after ok(Sync) on the edge where the synced XR's Ready condition is true. (R5.8) the default readiness of a composed resource is the conjunction of its readiness checks: after a check reported not-ready every return reports not-ready. R5.8 also requires that an empty list of checks (nil or not) is decided by the Ready condition.",
 		NotDecided:  []string{"readiness-check evaluation", "conditions a function writes through the desired XR status between the status patch and the final status update (transient)", "the truth of the per-resource Ready/Synced flags themselves beyond R5.2"},
 		Assumptions: []string{"xpv1 condition constructors return the constant Status found in their body", "Status().Update persists the in-memory conditions"},
 	})
